@@ -17,8 +17,9 @@ TRUSTED = ["pyserial behaviour = fake port (write/readline succeed, b'' on timeo
            "the conforming EBB device (reply = request name, comma, payload) as written in tools/harness/props/ebb3sim.py"]
 ASSUMPTIONS = ["replies are ASCII lines; faults are SerialException; payloads of name-correct replies are well-formed for the method that parses them"]
 
-REQS = ["QM", "V", "I", "QB", "QS", "QG", "A", "QP", "QE", "QC", "QT", "PI,B,1", "QL,3", "I,1", "S,1", "QR", "ES"]
+REQS = ["QM", "V", "I", "QB", "QS", "QG", "A", "QP", "QE", "QC", "QT", "PI,B,1", "QL,3", "I,1", "S,1", "QR", "ES", "Q1", "T3", "S2,1"]
 CMDS = ["EM,1,1", "SP,1,100", "TP", "SM,100,0,0", "R", "RB", "BL", "CS", "SC,4,16000", "S,2", "XM,10,1,1", "T3,1,0,0,0,0,0,0,3", "CU,50,0",
+        "T3,1,0,0,0,0,0,0,3", "S2,0,4,50,10", "L3,1,2,3,4,5,6,7,8", "L3", "S2", "T3", "TD,1,2", "LM,1,2,3,4,5,6", "LT,5,1,0,1,0",      # names whose second character is a digit, and their letter-only neighbours
         "B", "L,1,2", "b,7", "l", "LB", "BR", "r,1", "C", "N,1", "O,1,2,3", "Z"]        # one-letter names, incl. the letters of the reboot-class names
 WS = ["", "", " ", "\t", " \r\n", "  "]
 
@@ -79,8 +80,10 @@ def generate(rng, tier):
             for i in range(len(nom)):
                 nm_i = nom[i][1].split(",")[0] if isinstance(nom[i], tuple) else ""
                 for kind, repl in (("fault", ["F"]), ("errline", [("L", "!Err: 5")]), ("wrongname", [("L", "ZZ,1")]), ("silence", ["E"] * 30),
-                                   ("nameerr", [("L", nm_i + ",Err: 7")]), ("nameerr2", [("L", nm_i + " Err: bad")])):
-                    if kind in ("errline", "wrongname", "nameerr", "nameerr2") and nom[i] == "E": continue          # those replace a reply, not a write
+                                   ("nameerr", [("L", nm_i + ",Err: 7")]), ("nameerr2", [("L", nm_i + " Err: bad")]),
+                                   ("nearname", [("L", nm_i[:1] + "_,1")])):          # shares only the first character with the expected name
+                    if kind in ("errline", "wrongname", "nameerr", "nameerr2", "nearname") and nom[i] == "E": continue          # those replace a reply, not a write
+                    if kind == "nearname" and len(nm_i) < 2: continue
                     ev = nom[:i] + repl + nom[i + 1:]
                     add([c, S.random_call(rng)], [ev, S.nominal(("status",), rng)], "%s@%d/%s" % (kind, i, m))
                 if isinstance(nom[i], tuple):
@@ -109,7 +112,9 @@ def generate(rng, tier):
             exp = (_expected(call, ev) if not (body in ("R", "RB", "BL")) else "SKIP") if ne <= 25 else "FAIL"
         elif k < 0.5: ev = ["E", ("L", rng.choice(["!8 Err: unknown", nm + ",Err: 3", nm + ",Err: 3", nm + ",1,Err:", "Err:"]))]; fam = "errline"; exp = "FAIL"
         elif k < 0.65:
-            wrong = [w for w in ["OK", "ZZ", (nm[::-1] + "x") if (len(nm) == 2 and nm[0] != nm[1]) else ("x" + nm), nm.lower() if nm.lower() != nm else "x" + nm]
+            # wrong names incl. ones that share the first character with the request's name (T for T3, TD / T4 for T3, SC for S2, Q for QS)
+            near = [nm[0], nm[0] + "Z", nm[0] + "9", nm[0] + ",1", nm[0] + nm[0]] if len(nm) == 2 else []
+            wrong = [w for w in ["OK", "ZZ", (nm[::-1] + "x") if (len(nm) == 2 and nm[0] != nm[1]) else ("x" + nm), nm.lower() if nm.lower() != nm else "x" + nm] + near + near
                      if not w.startswith(nm)]          # "OK" is not a wrong name for a request named O
             ev = ["E", ("L", rng.choice(wrong))]; fam = "wrongname"; exp = "FAIL"
         elif k < 0.8: ev = ["E"] + ["E"] * rng.randint(0, 5) + ["F"]; fam = "readfault"; exp = "SKIP" if (not isq and nm.upper() in ("R", "RB", "BL")) else "FAIL"
